@@ -55,11 +55,18 @@ fn chk(out: &mut Out, ok: bool, class: &str, case: &str, detail: &str) {
     out.check(ok, class, case, detail);
 }
 
+/// Records what a Hasher is fed.  `Hasher` does not promise that adjacent
+/// writes are merged, so equal values must produce the same SEQUENCE OF
+/// CALLS: a `write_u8` records its octet, every other call (a raw `write`,
+/// also reached through the default write_u16 / write_usize ...) records an
+/// escape, the length of the slice and the slice - one `write(&[a, b])` is
+/// not the same as `write_u8(a); write_u8(b)`.
 #[derive(Default)]
 struct RecHasher(Vec<u8>);
 impl Hasher for RecHasher {
     fn finish(&self) -> u64 { 0 }
-    fn write(&mut self, b: &[u8]) { self.0.extend_from_slice(b) }
+    fn write(&mut self, b: &[u8]) { self.0.extend_from_slice(&[0x1B, 0x5B, (b.len() >> 8) as u8, b.len() as u8]); self.0.extend_from_slice(b) }
+    fn write_u8(&mut self, i: u8) { self.0.push(i) }
 }
 /// Hasher recording the calls as tokens: b.. write_u8, w.... write_u16,
 /// d........ write_u32, n<dec> write_usize (slice length prefix), r<hex> raw write
@@ -397,6 +404,7 @@ fn name_cases(out: &mut Out, r: &mut Rng, n: u64) {
                         chk(out, rev.eq == po.eq && rev.cmp == po.cmp.reverse() && rev.comp == po.comp.reverse() && rev.lcomp == po.lcomp.reverse(),
                                   "repr_independent_parsed_rhs", &c, "");
                         chk(out, hp == ha, "repr_independent_hash_parsed", &c, &hex(&hp));
+                        chk(out, toks(&pa) == toks(&fa), "repr_independent_hash_calls_parsed", &c, &format!("{} vs {}", toks(&pa), toks(&fa)));
                         chk(out, (pa == fb) == base.eq && pa.partial_cmp(&fb) == Some(base.cmp) && (fa == pa) && pa.cmp(&pa.clone()) == Ordering::Equal,
                                   "repr_independent_parsed_ops", &c, "");
                         // parsed vs parsed
